@@ -130,6 +130,31 @@ impl<'a> BytesStart<'a> {
         }
     }
 //@end
+//@extract events::BytesStart::extend_attributes | src/events/mod.rs :: impl<'a> BytesStart<'a> :: fn extend_attributes | serves=C09
+//@rewrite let mut __it1 = attributes; ==> let mut __it1 = attributes.into_iter();
+ #[verifier::exec_allows_no_decreases_clause]
+ pub fn extend_attributes<'b, I>(&mut self, attributes: I) -> (r: &mut BytesStart<'a>)
+    where
+        I: IntoIterator,
+        I::Item: Into<Attribute<'b>>,
+        requires forall|x: I::Item| call_requires(<I::Item as Into<Attribute<'b>>>::into, (x,)),
+        // C09: every item is appended with push_attribute: the tag only grows, what was there (the name first of all) stays
+        // (the `for` loop is over a caller-supplied iterator: that it ends is the iterator's business)
+        ensures r.name_len == old(self).name_len, r.buf@.len() >= old(self).buf@.len(),
+            r.buf@.subrange(0, old(self).buf@.len() as int) == old(self).buf@,
+            *final(self) == *final(r),
+    {
+        { let mut __it1 = attributes.into_iter(); loop
+            invariant self.name_len == old(self).name_len, self.buf@.len() >= old(self).buf@.len(),
+                self.buf@.subrange(0, old(self).buf@.len() as int) == old(self).buf@,
+                forall|x: I::Item| call_requires(<I::Item as Into<Attribute<'b>>>::into, (x,)),
+          { let ghost b1 = self.buf@; match __it1.next() { None => { break; } Some( attr) => {
+            self.push_attribute(attr);
+            proof { assert(self.buf@.subrange(0, old(self).buf@.len() as int) =~= b1.subrange(0, old(self).buf@.len() as int)); }
+        } } } }
+        self
+    }
+//@end
 //@extract events::BytesStart::clear_attributes | src/events/mod.rs :: impl<'a> BytesStart<'a> :: fn clear_attributes | serves=C09
  pub fn clear_attributes(&mut self) -> (r: &mut BytesStart<'a>)
         requires old(self).name_len <= old(self).buf@.len()
